@@ -405,11 +405,15 @@ type c04Listener struct {
 	on        func(*types.Status)
 	errRet    bool          // what OnError returns (the library must cope with either)
 	errSleep  time.Duration // a slow OnError: the next rejected datagram is already queued when it returns
+	onErr     func(error)   // (optional) sees every error the listener is handed
 }
 
 func (l *c04Listener) OnConnected()            { l.connected.Add(1) }
 func (l *c04Listener) OnEvent(s *types.Status) { l.on(s) }
-func (l *c04Listener) OnError(error) bool {
+func (l *c04Listener) OnError(err error) bool {
+	if l.onErr != nil {
+		l.onErr(err)
+	}
 	if l.errSleep > 0 {
 		time.Sleep(l.errSleep)
 	}
